@@ -26,12 +26,11 @@ Proof.
   destruct (N.eqb st 200); cbn; [|reflexivity]. destruct b; cbn; congruence.
 Qed.
 
-(* the only exceptions a download outcome can raise out of the owner *)
-Lemma convert_exceptions o x : convert o = RExc x -> x = XHostile \/ x = XAttr.
+(* no download outcome makes the conversion raise (D37 repaired the two that did) *)
+Lemma convert_never_raises o x : convert o <> RExc x.
 Proof.
   destruct o as [st b|k]; cbn; [|discriminate].
   destruct (N.eqb st 200); [|discriminate]. destruct b as [| | |t]; try discriminate.
-  - intros [= <-]. now left.
-  - unfold desc_of. destruct (e2d t) as [name v]. destruct (str_eqb name s_root); [|discriminate].
-    destruct v; try discriminate; intros [= <-]; now right.
+  unfold desc_of. destruct (e2d t) as [name v]. destruct (str_eqb name s_root); [|discriminate].
+  destruct v; discriminate.
 Qed.
